@@ -2,10 +2,12 @@ package main
 
 import (
 	"math/big"
+	"time"
 
 	sdk "github.com/cosmos/cosmos-sdk/types"
 	authtypes "github.com/cosmos/cosmos-sdk/x/auth/types"
 
+	servicekeeper "github.com/irismod/service/keeper"
 	st "github.com/irismod/service/types"
 )
 
@@ -35,3 +37,13 @@ func (baseOracle) Invariant(x *OCtx, v *View, m *Mon) []Violation { return nil }
 func (baseOracle) Step(x *OCtx, t *Trans) []Violation             { return nil }
 
 func addrBech(a []byte) string { return sdk.AccAddress(a).String() }
+
+type servicekeeperT = servicekeeper.Keeper
+
+func stDef(name string) st.ServiceDefinition {
+	return st.NewServiceDefinition(name, "d", nil, AU, "ad", schemasOK)
+}
+
+func stBinding(svc string, prov sdk.AccAddress, pricing string) st.ServiceBinding {
+	return st.NewServiceBinding(svc, prov, sdk.NewCoins(sdk.NewInt64Coin(denom, 0)), pricing, 1, "{}", true, time.Time{}, prov)
+}
